@@ -63,8 +63,10 @@ def norm_inf(M):
 # ------------------------------------------------------------------ library
 
 def gen_library(rng):
-    mats = ['matA', 'matB', 'matC', 'matD']
-    symbols = ['s1', 's2', 's3']
+    # symbols and material ids live in different namespaces; some spellings coincide on purpose
+    # (a symbol spelled like a material id, a material whose id is spelled like a symbol)
+    mats = ['matA', 'matB', 'matC', 's1']
+    symbols = ['s1', 'matB', 's3']
     geoms = []
     prim_kinds = ['triangles', 'polylist', 'polygons', 'lines']
     for gi in range(6):
@@ -167,10 +169,31 @@ class Counter(object):
         return '%s%d' % (prefix, self.n)
 
 
+def gen_chain(rng, lib, length, inst_targets, ids, nid=None):
+    """a deep, narrow chain of nodes (translations and sign flips only, so magnitudes stay small)"""
+    def tr():
+        return rng.choice([['translate', rng.randint(-2, 2), rng.randint(-2, 2), rng.randint(-2, 2)],
+                           ['scale', rng.choice([1, -1]), rng.choice([1, -1]), 1],
+                           ['matrix', [0, 1, 0, 1, -1, 0, 0, 0, 0, 0, 1, -1, 0, 0, 0, 1]]])
+    top = node = {'t': 'node', 'id': nid or ids.next('n'), 'transforms': [tr()], 'children': []}
+    for i in range(length):
+        if rng.random() < 0.3:
+            node['children'].append(gen_leaf(rng, lib, inst_targets))
+        nxt = {'t': 'node', 'id': ids.next('n'), 'transforms': [tr()] if rng.random() < 0.8 else [], 'children': []}
+        node['children'].append(nxt)
+        if rng.random() < 0.3:
+            node['children'].append(gen_leaf(rng, lib, inst_targets))
+        node = nxt
+    node['children'].append(gen_leaf(rng, lib, inst_targets))
+    return top
+
+
 def gen_node(rng, lib, depth, maxdepth, inst_targets, ids, nid=None):
     node = {'t': 'node', 'id': nid or ids.next('n'), 'transforms': [gen_transform(rng) for _ in range(rng.choice([0, 1, 1, 1, 2, 3]))],
             'children': []}
     fan = rng.randint(0, 4) if depth > 0 else rng.randint(1, 4)
+    if rng.random() < 0.04:
+        fan = rng.randint(6, 12)            # an unusually wide node
     for _ in range(fan):
         if depth + 1 < maxdepth and rng.random() < 0.45:
             node['children'].append(gen_node(rng, lib, depth + 1, maxdepth, inst_targets, ids))
@@ -196,7 +219,10 @@ def gen_case(rng, lib, forward_refs=False):
         targets = [n['id'] for n in libnodes] + root_ids[:i]      # earlier top-level scene nodes can be instantiated too
         if forward_refs:
             targets = targets + root_ids[i + 1:]
-        roots.append(gen_node(rng, lib, 0, rng.randint(1, 5), targets, ids, nid=root_ids[i]))
+        if rng.random() < 0.06:
+            roots.append(gen_chain(rng, lib, rng.randint(8, 25), targets, ids, nid=root_ids[i]))
+        else:
+            roots.append(gen_node(rng, lib, 0, rng.randint(1, 5), targets, ids, nid=root_ids[i]))
     return {'libnodes': libnodes, 'liborder': order, 'roots': roots}
 
 
@@ -254,15 +280,16 @@ def paths(case):
 
 
 def path_bound(case):
-    b = 1
-    cnt = 0
-    for mats, leaf in paths(case):
-        p = 4
+    """(16 * largest absolute entry of any product of node matrices along a prefix of an instance path,
+    number of instance paths): every number the implementation computes on the way stays below it"""
+    big = 1
+    ps = paths(case)
+    for mats, leaf in ps:
+        M = ident()
         for m in mats:
-            p *= norm_inf(m)
-        b = max(b, p)
-        cnt += 1
-    return b, cnt
+            M = mmul(M, m)
+            big = max(big, max(abs(v) for row in M for v in row), max(abs(v) for row in m for v in row))
+    return 16 * big, len(ps)
 
 
 def expected(lib, case):
@@ -361,9 +388,12 @@ def atoms(lib):
         A[c['id']] = 301 + i
     for i, c in enumerate(lib['controllers']):
         A[c['id']] = 401 + i
-    for i, s in enumerate(lib['symbols'] + ['surplus1', 'surplus2']):
-        A[s] = 501 + i
     return A
+
+
+def sym_atoms(lib):
+    """material symbols are a namespace of their own"""
+    return {s: 501 + i for i, s in enumerate(lib['symbols'] + ['surplus1', 'surplus2'])}
 
 
 # ------------------------------------------------------------------ XML
